@@ -19,6 +19,7 @@ Inductive case :=
 | CVoltTol (amp off : Q) (res : Z) (vs : list Q) (o_np o_loop o_pub : outcome (list Z))
 | CMono (xs : list Q) (o_np o_loop o_pub : bool)
 | CWin (sr : Q) (ws : list (Q * Q)) (o_np o_loop o_pub : list (Z * Z))
+| CWinF (sr : Q) (ws : list (Q * Q)) (o_np o_loop o_pub : list (Z * Z))     (* decimal stream: arbitrary binary64 inputs *)
 | CShrink (ws : list (Z * Z)) (o_np o_loop o_pub : shrink_obs)
 | CAvg (nch : nat) (time : list Q) (values : list (list Q)) (ws : list (Q * Q)) (o_np o_loop o_pub : list (list (option Q)))
 | CNni (l : list (option Z)) (o : list (option Z) * Z)
@@ -46,6 +47,10 @@ Fixpoint nodupQ (l : list Q) : bool :=
 Definition win_corr (strict : bool) (sr : Q) (ws : list (Q * Q)) (model obs : list (Z * Z)) : bool :=
   if strict || nodupQ (map fst ws) then win_eqb model obs
   else match_sorted (fun w o => ZZ_eqb (conv sr w) o) obs ws.
+
+Definition win_corr64 (strict : bool) (sr : Q) (ws : list (Q * Q)) (model obs : list (Z * Z)) : bool :=
+  if strict || nodupQ (map fst ws) then win_eqb model obs
+  else match_sorted (fun w o => ZZ_eqb (conv64 sr w) o) obs ws.
 
 (* the public entry point dispatches on `numba is None`; either variant is accepted for it *)
 Definition either {A} (e : A -> A -> bool) (m1 m2 o : A) : bool := e m1 o || e m2 o.
@@ -78,6 +83,7 @@ Definition same_obs (a b : case) : bool :=
   | CVoltTol _ _ _ _ a1 a2 a3, CVoltTol _ _ _ _ b1 b2 b3 => volt_eqb a1 b1 && volt_eqb a2 b2 && volt_eqb a3 b3
   | CMono _ a1 a2 a3, CMono _ b1 b2 b3 => Bool.eqb a1 b1 && Bool.eqb a2 b2 && Bool.eqb a3 b3
   | CWin _ _ a1 a2 a3, CWin _ _ b1 b2 b3 => win_eqb a1 b1 && win_eqb a2 b2 && win_eqb a3 b3
+  | CWinF _ _ a1 a2 a3, CWinF _ _ b1 b2 b3 => win_eqb a1 b1 && win_eqb a2 b2 && win_eqb a3 b3
   | CShrink _ a1 a2 a3, CShrink _ b1 b2 b3 => shrink_eqb a1 b1 && shrink_eqb a2 b2 && shrink_eqb a3 b3
   | CAvg _ _ _ _ a1 a2 a3, CAvg _ _ _ _ b1 b2 b3 => avg_eqb a1 b1 && avg_eqb a2 b2 && avg_eqb a3 b3
   | CNni _ a1, CNni _ b1 => nni_eqb a1 b1
@@ -108,6 +114,10 @@ Fixpoint check_corr (c : case) : bool :=
       win_corr false sr ws (tw_numpy sr ws) o_np
       && win_corr (mono_loop (map fst ws)) sr ws (tw_loop sr ws) o_loop
       && (win_corr false sr ws (tw_numpy sr ws) o_pub || win_corr (mono_loop (map fst ws)) sr ws (tw_loop sr ws) o_pub)
+  | CWinF sr ws o_np o_loop o_pub =>      (* EXACT also here: the model rounds the product to binary64 like the code *)
+      win_corr64 false sr ws (tw_numpy64 sr ws) o_np
+      && win_corr64 (mono_loop (map fst ws)) sr ws (tw_loop64 sr ws) o_loop
+      && (win_corr64 false sr ws (tw_numpy64 sr ws) o_pub || win_corr64 (mono_loop (map fst ws)) sr ws (tw_loop64 sr ws) o_pub)
   | CShrink ws o_np o_loop o_pub =>
       shrink_eqb (shrink_numpy ws) o_np && shrink_eqb (shrink_loop ws) o_loop
       && either shrink_eqb (shrink_numpy ws) (shrink_loop ws) o_pub
@@ -135,6 +145,8 @@ Fixpoint check_spec (c : case) : bool :=
       Bool.eqb (sortedb xs) o_pub && Bool.eqb o_np o_loop
   | CWin sr ws o_np o_loop o_pub =>
       spec_tw sr ws o_pub && win_eqb o_np o_loop && win_eqb o_np o_pub
+  | CWinF sr ws o_np o_loop o_pub =>
+      spec_tw_tol sr ws o_pub && win_eqb o_np o_loop && win_eqb o_np o_pub
   | CShrink ws o_np o_loop o_pub =>
       spec_shrink ws o_pub && shrink_eqb o_np o_loop && shrink_eqb o_np o_pub
   | CAvg nch time values ws o_np o_loop o_pub =>
